@@ -22,4 +22,6 @@ package numct
 // |q| <= 1 otherwise, so this capacity never truncates the quotient; a smaller one does), never less than one bit.
 //@ func (*Int).EuclideanDivVarTime
 //@   property C17
+// (a *Nat and an *Int are different objects by Go typing; the ghost heap is untyped, so it is said explicitly)
+//@   requires box(remainder) != box(i)
 //@   ensures ok == 1 ==> alen(i) >= 1 && alen(i) >= min(old(alen(numerator)), old(alen(numerator)) - denominator.TrueLen() + 2) && alen(i) <= max(1, old(alen(numerator)))
